@@ -465,6 +465,18 @@ contract(
         "F1": (Map(Ref("SXGlyph"), INT), "glyph.frame_ncontours"),
     },
     ghost={"glyph.removeComponent(component)": ["wN = {**wN, i: len(glyph.components) - len(K) + i}"]},
+    # stepping stones between the two list edits of an iteration (each is proved, then assumed): after the pen has appended its
+    # output, the invariants still hold with the same i, and a passed-through component sits at the end
+    hints={"component.drawPoints(pen)": [
+        "len(glyph.components) >= len(K) - i and all(glyph.components[k] == K[i + k] for k in range(len(K) - i))",
+        "glyph.components[0] == component",
+        "all(glyph.components[k].baseGlyph not in include for k in range(len(K) - i, len(glyph.components)))",
+        "all(implies(K[j].baseGlyph not in include, j in wN and 0 <= wN[j] and len(K) - i + wN[j] < len(glyph.components)"
+        " and glyph.components[len(K) - i + wN[j]].baseGlyph == K[j].baseGlyph"
+        " and glyph.components[len(K) - i + wN[j]].transformation == K[j].transformation) for j in range(i))",
+        "implies(component.baseGlyph not in include, glyph.components[len(glyph.components) - 1].baseGlyph == component.baseGlyph"
+        " and glyph.components[len(glyph.components) - 1].transformation == component.transformation and len(glyph.components) > len(K) - i)",
+    ]},
     loops={
         "for component in list(glyph.components)": Loop(
             index="i", seq="K",
